@@ -13,15 +13,14 @@ def expand_bulk(op):
     _, r, kind, t, e, l = op
     if kind == 'from':
         pairs = [tuple(p) for p in l]
-    elif kind == 'path':
+    elif kind in ('path', 'fpath'):
         pairs = list(zip(l[:-1], l[1:]))
-    elif kind == 'star':
+    elif kind in ('star', 'fstar'):
         pairs = [(l[0], x) for x in l[1:]] if l else []
     else:
         pairs = list(zip(l, l[1:] + [l[0]])) if l else []
-        e = None
-    if kind != 'from':
-        e = None
+    if kind in ('path', 'star', 'cycle'):
+        e = None            # the methods take no vanishing time; the module-level helpers (f...) pass it on
     return [(u, v, t, e) for u, v in pairs]
 
 
@@ -170,3 +169,43 @@ def tup(h):
             o[5] = [tuple(x) if isinstance(x, (list, tuple)) else x for x in o[5]]
         out.append(tuple(o))
     return out
+
+
+# ----------------------------------------------------------------------------------------------------------
+# multi-megabyte file cases (C09, C10, C18): run on the implementation only (core.big_io_check), the model answers 'OK'
+# ----------------------------------------------------------------------------------------------------------
+def bigio_case(*args):
+    return dict(kind='bigio', bigio=[list(a) for a in args], family='int', functional=False)
+
+
+def with_bigio(cls):
+    """class decorator: cases of kind 'bigio' get their own program / oracle; everything else is the class's own"""
+    own = {k: getattr(cls, k) for k in ('program', 'oracle', 'nontrivial', 'classify', 'shrink_candidates')}
+    big = lambda case: isinstance(case, dict) and case.get('kind') == 'bigio'
+
+    def program(self, case):
+        return [('bigio',) + tuple(a) for a in case['bigio']] if big(case) else own['program'](self, case)
+
+    def oracle(self, case, prog, ri):
+        if not big(case):
+            return own['oracle'](self, case, prog, ri)
+        return [dict(index=i, op=list(op), what='multi-megabyte file (%s): %s' % (op[1:], r))
+                for i, (op, r) in enumerate(zip(prog, ri)) if r != 'OK']
+
+    def nontrivial(self, case, prog, ri):
+        return True if big(case) else own['nontrivial'](self, case, prog, ri)
+
+    def classify(self, case, prog, ri):
+        return {('long_runs:%s' % a[0] if str(a[0]).startswith('span-') else 'multi_megabyte_file:%s:%s' % (a[0], 'keys' if a[3] else 'plain')): 1 for a in case['bigio']} if big(case) else own['classify'](self, case, prog, ri)
+
+    def shrink_candidates(self, case):
+        if big(case):
+            for a in case['bigio']:
+                if len(case['bigio']) > 1:
+                    yield dict(case, bigio=[a])
+            return
+        yield from own['shrink_candidates'](self, case)
+
+    cls.program, cls.oracle, cls.nontrivial, cls.classify, cls.shrink_candidates = program, oracle, nontrivial, classify, shrink_candidates
+    cls.obs = set(cls.obs) | {'bigio'}
+    return cls
